@@ -73,9 +73,11 @@ Proof. intros H. apply plain_wf, plain_ip, H. Qed.
 Lemma decode_l3_wf (k : Z) d j p rest : wf_bytes d ->
   (if k =? 4 then decode_ipv4 d else decode_ipv6 d) = Ok (j, p, rest) -> wf_jv j /\ wf_bytes rest.
 Proof.
-  intros H E. destruct (k =? 4); unfold decode_ipv4, decode_ipv6 in E; destruct (len d <? _); try discriminate E; injection E as <- <- <-.
-  - split; [|apply wf_skipn, H]. cbn. repeat split; apply wf_ip_str, wf_firstn, wf_skipn, H.
-  - split; [|apply wf_skipn, H]. cbn. repeat split; apply wf_ip_str, wf_firstn, wf_skipn, H.
+  intros H E. destruct (k =? 4); unfold decode_ipv4, decode_ipv6 in E.
+  - destruct (len d <? 20); [discriminate E|]. destruct (len d <? ipv4_hlen d); [discriminate E|]. injection E as <- <- <-.
+    split; [|apply wf_skipn, H]. cbn. repeat split; apply wf_ip_str, wf_firstn, wf_skipn, H.
+  - destruct (len d <? 40); [discriminate E|]. injection E as <- <- <-.
+    split; [|apply wf_skipn, H]. cbn. repeat split; apply wf_ip_str, wf_firstn, wf_skipn, H.
 Qed.
 
 Lemma decode_l4_wf p d j : wf_bytes d -> decode_l4 p d = Ok j -> wf_jv j.
